@@ -8,6 +8,7 @@ package main
 import (
 	"encoding/json"
 	"fmt"
+	"os"
 	"sort"
 	"strings"
 
@@ -83,7 +84,13 @@ func (hw *histWorld) sid(secret string) (Sx, bool) {
 
 func (hw *histWorld) chosen(ps cashu.Proofs) Sx {
 	var out []Sx
+	b := hw.b
 	for _, p := range ps {
+		if _, ok := b.bySecret[p.Secret]; !ok && b.opW >= 0 && b.opW < len(b.wallets) {
+			// not derived yet: the acting wallet's outputs of this keyset, up to well past its counter
+			seed := b.wallets[b.opW].seed
+			b.derive(seed, p.Id, b.seeds[seed].maxCtr[p.Id]+128)
+		}
 		if s, ok := hw.sid(p.Secret); ok {
 			out = append(out, s)
 		}
@@ -272,6 +279,9 @@ func (bm *booksModel) ask(hw *histWorld, op Sx) (modelAns, bool) {
 		}
 	}
 	raw := hw.c.Drv.Ask(cmd)
+	if os.Getenv("WB_DEBUG") != "" {
+		fmt.Println("MODEL", Render(cmd), "=>", raw)
+	}
 	ma, ok := parseAns(raw)
 	if !ok {
 		bm.lose(hw, Render(op), raw)
